@@ -6,6 +6,7 @@ CONSTANTS
   MaxSteps = 7
   MaxDup = 1
   MaxBad = 1
+  MaxRestart = 1
   Ticks = {4900, 5200, 55000}
   Record = TRUE
   Ver = 0
